@@ -36,6 +36,9 @@ pub enum SFault {
     ClaimedOther(u8),
     /// pub_key of quote j replaced by another key
     OtherPubKey(u8),
+    /// entry j is listed under payee-id bytes that do not decode to a peer id, and its quote is
+    /// forged (signed by a stranger in the name of the payee that stood there)
+    UndecodablePayee(u8),
 }
 
 #[derive(Clone, Copy, Debug, Serialize, Deserialize, PartialEq, Eq, Hash)]
@@ -89,7 +92,7 @@ impl Case {
 
 fn case_strategy() -> BoxedStrategy<Case> {
     let kind = prop_oneof![Just(Kind::Chunk), Just(Kind::Pad), Just(Kind::Tx), Just(Kind::Reg)];
-    let s = prop_oneof![(0u8..3).prop_map(SFault::CorruptSig), (0u8..3).prop_map(SFault::ClaimedOther), (0u8..3).prop_map(SFault::OtherPubKey)];
+    let s = prop_oneof![(0u8..3).prop_map(SFault::CorruptSig), (0u8..3).prop_map(SFault::ClaimedOther), (0u8..3).prop_map(SFault::OtherPubKey), (0u8..3).prop_map(SFault::UndecodablePayee)];
     let e = prop_oneof![(0u8..3, 60u16..4000).prop_map(|(j, d)| EFault::Old(j, d)), (0u8..3, 60u16..4000).prop_map(|(j, d)| EFault::Future(j, d))];
     let k = prop_oneof![Just(KFault::Unknown), Just(KFault::KnownButFar)];
     let o = prop_oneof![Just([false, true, true]), Just([true, false, true]), Just([true, true, false]), Just([false, false, false])];
@@ -326,12 +329,24 @@ pub fn build_proof(case: &Case, cl: &mut Cluster, pl: &Payload) -> (ProofOfPayme
             SFault::OtherPubKey(t) if t as usize % 3 == j => {
                 q.pub_key = fix::ed_keypair(980 + j as u64).public().encode_protobuf();
             }
+            SFault::UndecodablePayee(t) if t as usize % 3 == j => {
+                // a quote in the payee's name that the payee never signed
+                let n = q.signature.len();
+                q.signature[n / 3] ^= 0x11;
+            }
             _ => {}
         }
         entries.push((claimed, q));
     }
     let hashes: Vec<[u8; 32]> = entries.iter().map(|(_, q)| q.hash().0).collect();
-    (proof(entries), hashes, k_constructed)
+    let mut pr = proof(entries);
+    if let SFault::UndecodablePayee(t) = case.s {
+        let j = t as usize % 3;
+        // payee id bytes that are no valid multihash
+        let junk: ant_evm::EncodedPeerId = rmp_serde::from_slice(&rmp_serde::to_vec(&vec![0xffu8, 0x00, 0x13, 0x37]).unwrap()).expect("EncodedPeerId is a byte vector");
+        pr.peer_quotes[j].0 = junk;
+    }
+    (pr, hashes, k_constructed)
 }
 
 fn check(case: &Case, ctx: &mut Ctx) {
